@@ -159,6 +159,11 @@ def c18(tier, seed):
     evs = c.drive("default", "wblock", maxlen=160 if thorough else 72, extra=8 if thorough else 2, keys=3 if thorough else 1,
                   big=3 if thorough else 1)
     c.validate(evs, mod, cfg, "wblock-l2", what="belt-wblock conformance", cost=lambda run: sum(len(e.get("in", [])) ** 2 // 256 + 1 for e in run))
+    # the crate's optional features are build configurations too (feature-gated code inside the wide-block functions)
+    for j, cfg_id in enumerate(("feat-all", "feat-min")):
+        fe = c.drive(cfg_id, "wblock", maxlen=100 if thorough else 56, extra=4 if thorough else 1, keys=1, seed=seed + 7 + j, minlen=30)
+        c.validate(fe, mod, cfg, f"wblock-l2-{cfg_id}", what=f"belt-wblock conformance ({cfg_id})",
+                   cost=lambda run: sum(len(e.get("in", [])) ** 2 // 256 + 1 for e in run))
     # L1 view of the same trace: both compositions are inverse, rejection leaves the buffer untouched
     evs2 = c.drive("default", "wblock", maxlen=160 if thorough else 100, extra=20 if thorough else 4, keys=4 if thorough else 2,
                    seed=seed + 1, big=12 if thorough else 3)
@@ -200,6 +205,9 @@ def c01(tier, seed):
     wb = c.drive("default", "wblock", minlen=32, maxlen=96 if not thorough else 200, extra=4 if not thorough else 30, keys=2,
                  big=3 if not thorough else 12)
     c.validate(wb, API_MOD, API_CFG, "rt-wblock", what="wblock round trip")
+    for cfg_id in ("feat-all", "feat-min"):
+        wf = c.drive(cfg_id, "wblock", minlen=32, maxlen=80 if not thorough else 160, extra=2 if not thorough else 10, keys=1, big=1)
+        c.validate(wf, API_MOD, API_CFG, f"rt-wblock-{cfg_id}", what=f"wblock round trip ({cfg_id})")
     rule = ("per key: enc(b)->c, dec(c), dec(b)->p, enc(p) through single-block and multi-block entry points, Enc/Dec halves joined "
             "through From, Threefish tweak/u64 constructors, wblock both compositions; accepted iff consistent with one learned "
             "partial bijection per key class (no L2 oracle); every catalogue type x accepted key lengths (" +
@@ -226,6 +234,9 @@ def c03(tier, seed):
     for cfg_id in ("feat-min", "default", "feat-all"):
         traces.append((cfg_id, c.drive(cfg_id, "conf", keys=3 if thorough else 2, blocks=2)))
     c.validate(merge_by_run(traces), API_MOD, API_CFG, "x-feat", what="feature independence")
+    traces = [(cfg_id, c.drive(cfg_id, "wblock", minlen=32, maxlen=80 if not thorough else 200, extra=2 if not thorough else 12, keys=1, big=1))
+              for cfg_id in ("feat-min", "default", "feat-all")]
+    c.validate(merge_by_run(traces), API_MOD, API_CFG, "x-feat-wblock", what="feature independence (wblock)")
     rule = ("the same seeded scenario script is executed by every configuration's binary; run k of all configurations is merged under "
             "one learned permutation per key class, so any two configurations disagreeing on any (key, block) are rejected; batch lanes "
             "share a common prefix across parallel widths")
